@@ -19,5 +19,5 @@ PROP = {
  "bounded": [
   "tool_failure"
  ],
- "level_text": "Every proof obligation generated from the current source of the functions under contract is discharged: with the tool's return code, stdout, stderr and output file arbitrary (E-PROC), a verification that did not end in a line OK on stderr raises, a killed tool raises, a decryption without result yields the unchanged text, signing / encryption without result raises. BOUNDED companion (tool_failure, stand-in tool, never counted as proved; it stands in for no clause above): five failure modes of the tool (error exit, death by signal, silent exit 0 without result, garbage output, truncated output) are injected at the first use of --verify / --decrypt on one SP object and of --sign / --encrypt on one IdP object and again after one or two successful uses, to expose state that survives between calls (a reused output file, a cached verdict), which a contract on a single call cannot see."
+ "level_text": "Every proof obligation generated from the current source of the functions under contract is discharged: with the tool's return code, stdout, stderr and output file arbitrary (E-PROC), a verification that did not end in a line OK on stderr raises, a killed tool raises, a decryption without result yields the unchanged text, signing / encryption without result raises. BOUNDED companion (tool_failure, stand-in tool, never counted as proved; it stands in for no clause above): six failure modes of the tool (error exit, death by signal, silent exit 0 without result, garbage output, truncated output, an error message that merely contains the word OK) are injected at the first use of --verify / --decrypt on one SP object, of the verification of a signed AuthnRequest and of --sign / --encrypt on one IdP object and again after one or two successful uses, to expose state that survives between calls (a reused output file, a cached verdict), which a contract on a single call cannot see."
 }
